@@ -46,9 +46,11 @@ non-trivial = at least one clone whose source is later dropped or mutated while 
     let mut cases = vec![]; let mut seen = std::collections::HashSet::new();
     let range: Vec<usize> = match a.only { Some(i) => vec![i], None => (0..a.n).collect() };
     for idx in range {
+        if a.only.is_none() { let _ = std::fs::create_dir_all(&a.out); let _ = std::fs::write(format!("{}/progress", a.out), idx.to_string()); }
         let mut r = base.fork(idx as u64);
         let nops = r.range(4, 40);
         let mut slots: Vec<Option<Store>> = (0..5).map(|_| None).collect();
+        let mut shadow: Vec<Vec<u64>> = (0..5).map(|_| vec![]).collect(); // expected term ids by index, per slot
         let mut ops: Vec<Op> = vec![]; let mut coq_ops: Vec<String> = vec![];
         let mut bulk_next = 1000u64; let mut interesting = false; let mut cloned_from: Vec<(usize, usize)> = vec![];
         let mut failure: Option<String> = None;
@@ -67,30 +69,36 @@ non-trivial = at least one clone whose source is later dropped or mutated while 
                     _ => Op::Insert(s, (0..4).map(|_| 1 + r.below(16) as u64).collect()),
                 } };
             match &op {
-                Op::New(s, k) => { slots[*s] = Some(new_store(*k)); coq_ops.push(format!("New {s}")); }
+                Op::New(s, k) => { slots[*s] = Some(new_store(*k)); shadow[*s].clear(); coq_ops.push(format!("New {s}")); }
                 Op::Insert(s, ids) => {
                     let ts: Vec<ST> = ids.iter().map(|i| term(*i, &mut r)).collect();
                     if matches!(slots[*s], Some(Store::I16(_)) | Some(Store::SFG(_))) && slots[*s].as_ref().unwrap().len() > 60000 { continue; }
                     let used = slots[*s].as_mut().unwrap().insert(&ts);
-                    for t in &ts[..used] { coq_ops.push(format!("Insert {s} {} {} {}", tid(t), nstr(t) - 1, coq_bool(t.is_triple()))); }
+                    for t in &ts[..used] { coq_ops.push(format!("Insert {s} {} {} {}", tid(t), nstr(t) - 1, coq_bool(t.is_triple()))); if !shadow[*s].contains(&tid(t)) { shadow[*s].push(tid(t)); } }
                     if cloned_from.iter().any(|(src, dst)| src == s && slots[*dst].is_some()) { interesting = true; }
                 }
                 Op::Bulk(s, from, n) => {
                     if matches!(slots[*s], Some(Store::I16(_)) | Some(Store::SFG(_))) && slots[*s].as_ref().unwrap().len() + 4 * n > 60000 { continue; }
                     let st = slots[*s].as_mut().unwrap();
-                    for k in (0..*n).step_by(4) { let ts: Vec<ST> = (0..4).map(|j| term(from + (k + j) as u64, &mut r)).collect(); let used = st.insert(&ts); for t in &ts[..used] { coq_ops.push(format!("Insert {s} {} 0 false", tid(t))); } }
+                    for k in (0..*n).step_by(4) { let ts: Vec<ST> = (0..4).map(|j| term(from + (k + j) as u64, &mut r)).collect(); let used = st.insert(&ts); for t in &ts[..used] { coq_ops.push(format!("Insert {s} {} 0 false", tid(t))); if !shadow[*s].contains(&tid(t)) { shadow[*s].push(tid(t)); } } }
                     coq_ops.push(format!("Grow {s}"));
                 }
                 Op::Remove(s, ids) => { let ts: Vec<ST> = ids.iter().map(|i| term(*i, &mut r)).collect(); slots[*s].as_mut().unwrap().remove(&ts); }
-                Op::Clone(s, d) => { let c = slots[*s].as_ref().unwrap().clone_it(); slots[*d] = Some(c); cloned_from.push((*s, *d)); coq_ops.push(format!("Clone {s} {d}")); }
-                Op::Drop(s) => { let st = slots[*s].take(); drop(st); coq_ops.push(format!("Drop {s}"));
+                Op::Clone(s, d) => { let c = slots[*s].as_ref().unwrap().clone_it(); slots[*d] = Some(c); shadow[*d] = shadow[*s].clone(); cloned_from.push((*s, *d)); coq_ops.push(format!("Clone {s} {d}")); }
+                Op::Drop(s) => { let st = slots[*s].take(); drop(st); shadow[*s].clear(); coq_ops.push(format!("Drop {s}"));
                     if cloned_from.iter().any(|(src, dst)| (src == s && slots[*dst].as_ref().is_some_and(|x| x.len() > 0)) || (dst == s && slots[*src].as_ref().is_some_and(|x| x.len() > 0))) { interesting = true; } }
-                Op::Swap(x, y) => { if x != y { slots.swap(*x, *y); for c in cloned_from.iter_mut() { for e in [&mut c.0, &mut c.1] { if *e == *x { *e = *y } else if *e == *y { *e = *x } } } coq_ops.push(format!("Swap {x} {y}")); } }
+                Op::Swap(x, y) => { if x != y { slots.swap(*x, *y); shadow.swap(*x, *y); for c in cloned_from.iter_mut() { for e in [&mut c.0, &mut c.1] { if *e == *x { *e = *y } else if *e == *y { *e = *x } } } coq_ops.push(format!("Swap {x} {y}")); } }
             }
             ops.push(op);
             // oracle after every step: no live store points into memory it does not own
             for (i, s) in slots.iter().enumerate() { if let Some(s) = s { let au = s.audit(); if au.iter().any(|b| !b) && failure.is_none() {
                 failure = Some(format!("after {:?}: store #{i} ({}) holds {} of {} index entries that point outside its own key storage (would read memory it does not own)", ops, s.kind(), au.iter().filter(|b| !**b).count(), au.len())); } } }
+            // and every live store still holds exactly the terms it interned, in order (a clone: those of its
+            // original at the time of cloning plus its own later ones)
+            if failure.is_none() { for (i, s) in slots.iter().enumerate() { if let Some(s) = s { if s.audit().iter().all(|b| *b) {
+                let got: Vec<u64> = (0..s.len()).map(|k| tid(&s.term_at(k))).collect();
+                if got != shadow[i] && failure.is_none() { failure = Some(format!("after {:?}: store #{i} ({}) no longer holds the terms it interned: index table reads {:?}, expected {:?}", ops, s.kind(), got.iter().take(12).collect::<Vec<_>>(), shadow[i].iter().take(12).collect::<Vec<_>>())); }
+            } } } }
             if failure.is_some() { break; }
         }
         let text = format!("{ops:?}");
